@@ -438,6 +438,8 @@ type Contract struct {
 	GhostDecls []string
 	Fresh      []*FreshClause
 	SpecVars   [][2]string // speclemma: variable name, bit width
+	NoReturn   bool        // the function never returns (exits the process)
+	NoReturnProps []string
 	TimeoutMs  int
 }
 
@@ -1088,6 +1090,13 @@ func (c *Contract) addClause(word, label, rest, src string) error {
 			fc.When = w
 		}
 		c.Fresh = append(c.Fresh, fc)
+	case "noreturn":
+		c.NoReturn = true
+		_, tags := splitTags(rest)
+		for _, t := range tags {
+			c.Props[t] = true
+		}
+		c.NoReturnProps = tags
 	case "maypanic":
 		c.MayPanic = true
 	case "nosafety":
